@@ -1,8 +1,11 @@
 import CJ.Drv.Loop
 import CJ.Drv.Liveness
-/-! Driver for C18: the liveness-cache model. -/
+import CJ.Drv.LivenessText
+/-! Driver for C18: the liveness-cache model; `dur|` / `cachet|` = the configured lifetimes as text. -/
 open CJ.Drv
 
 def main : IO Unit := runDriver fun
   | "cache" :: args => Liveness.handle args
+  | "dur" :: args => LivenessText.handleDur args
+  | "cachet" :: args => LivenessText.handleCache args
   | _ => none
